@@ -252,3 +252,29 @@ def _appends_triple(func, formal):
                 and isinstance(n.args[0], ast.Tuple) and len(n.args[0].elts) == 3:
             return True
     return False
+
+
+def r1d(repo, rep, callers=None):
+    """Default agreement: a parameter that a wrapper hands on to the same-named parameter of the function it wraps has the
+    same default in both signatures."""
+    rep.rule("R1d", "default agreement: where a wrapper forwards its parameter p to the callee's parameter p and both declare a "
+                    "default, the defaults are the same expression")
+    sites, _ = sites_of(repo)
+    callers = set(callers) if callers is not None else None
+    n = 0
+    for s in sites:
+        if s.kind != "direct" or s.error or not isinstance(s.callee, Func) or not in_scope(s.caller) or s.caller.parent is not None:
+            continue
+        if callers is not None and s.caller.name not in callers:
+            continue
+        # only for returned calls (wrappers)
+        for p, act in s.binding.items():
+            if isinstance(act, ast.Name) and act.id == p and p in s.caller.defaults and p in s.callee.defaults:
+                n += 1
+                a, b = short(s.caller.defaults[p]), short(s.callee.defaults[p])
+                ok = a.replace('"', "'").lower() == b.replace('"', "'").lower()
+                rep.ob("R1d", ok, "%s -> %s: default of `%s`" % (s.caller.name, s.callee.name, p), func=s.caller, node=s.caller.node,
+                       construct="%s(%s=%s) -> %s(%s=%s)" % (s.caller.name, p, a, s.callee.name, p, b),
+                       detail="" if ok else "wrapper defaults `%s` to %s but the function it wraps defaults it to %s: the wrapper silently "
+                       "changes the documented default behaviour" % (p, a, b))
+    rep.count("R1d:forwarded defaults compared", n)
